@@ -52,6 +52,8 @@ fn main() {
         "reload" => streams::server::run_reload(&mut r, n, &mut out),
         "wire-deep" => streams::wire::run_deep(n, &mut out),
         "tables" => streams::name::run_tables(&mut out),
+        "hosts" => streams::hosts::run(&mut r, n, &mut out),
+        "ip" => streams::hosts::run_ip(&mut r, n, &mut out),
         other => {
             eprintln!("unknown stream {other}");
             std::process::exit(2);
